@@ -47,7 +47,8 @@ def Shape : B → DataType → Bool → Metadata → Prop
       dt = .map (.mk ename (.struct (.cons (.mk kn kdt knl kmd) (.cons (.mk vn vdt vnl vmd) rest))) en emd) sorted ∧
       Shape ks kdt knl kmd ∧ Shape vs vdt vnl vmd
   | .struct _ _ v fs _ _ _, dt, n, _ => v.isSome = n ∧ ∃ sfs, dt = .struct sfs ∧ ShapeL fs sfs
-  | .dictionary _ _ _ _, _, _, _ => False
+  | .dictionary _ idx vals _, dt, n, _ =>
+    (∃ kdt vdt, dt = .dictionary kdt vdt) ∧ idx.isIntLeaf = true ∧ idx.isNullable = n ∧ vals.isUtf8B = true
   | .union _ fs _ _ _, dt, _, _ => ∃ ufs mode, dt = .union ufs mode ∧ ShapeU fs ufs 0
 def ShapeL : BL → Fields → Prop
   | .nil, .nil => True
@@ -96,7 +97,8 @@ theorem Shape_takeRest : ∀ (b : B) (dt : DataType) (n : Bool) (md : Metadata),
     constructor
     · rintro ⟨h1, sfs, h2, h3⟩; exact ⟨h1, sfs, h2, (ShapeL_takeRest fs sfs).1 h3⟩
     · rintro ⟨h1, sfs, h2, h3⟩; exact ⟨h1, sfs, h2, (ShapeL_takeRest fs sfs).2 h3⟩
-  | .dictionary _ _ _ _, _, _, _ => by simp [takeRest, Shape]
+  | .dictionary _ idx vals _, _, _, _ => by
+    simp only [takeRest, Shape, isIntLeaf_takeRest, isUtf8B_takeRest, isNullable_takeRest]
   | .union _ fs _ _ _, dt, n, md => by
     simp only [takeRest, Shape]
     constructor
